@@ -21,6 +21,12 @@ O(st, res) == [st |-> st, res |-> res]
 
 \* the only helpers whose contract is in-place, and the argument they may touch
 InPlace == {"Reverse", "Reject", "Omit", "OmitBy", "heap.FromSlice", "heap.Sort"}
+\* helpers whose result is by nature a window onto (or the very object of) an argument rather than "a
+\* new slice, map or string": the in-place ones return their argument, Drop and Chunk return
+\* sub-slices, the map-collection filters hand back the caller's own maps.  Every other helper
+\* returns fresh storage: a result that shares storage with an argument would be altered by a
+\* later in-place helper on that argument.
+MayAlias == InPlace \cup {"Drop", "Chunk", "FilterMapCollection", "PartitionMap"}
 
 ArgsKept(s, after, ip) ==
     \A b \in DOMAIN s.buf :
@@ -43,6 +49,7 @@ CallOK(s, op, res) ==
     IN  /\ ~res.p
         /\ Len(res.h.ll) = nb + nr + Len(res.s)
         /\ (ip # 0 => op.f \in InPlace)                  \* the driver may only declare contract in-place helpers
+        /\ (op.f \notin MayAlias => \A j \in 1..Len(res.s) : res.s[j] = 0)
         /\ ArgsKept(s, after, ip)
         /\ ResultsKept(s, rr, ip)
 
